@@ -29,7 +29,7 @@ let site = function SLog -> "log" | SSeed -> "seed" | SKey -> "key" | SSock -> "
 let why = function
   | WMissing -> "missing" | WType -> "type" | WSymlink -> "symlink" | WOwner -> "owner" | WGroup -> "group"
   | WOther -> "other" | WDir (i, r) -> Printf.sprintf "dir:%d:%s" (int_of_nat i) (reason r)
-  | WAccess i -> Printf.sprintf "access:%d" (int_of_nat i) | WLock -> "lockfile"
+  | WAccess i -> Printf.sprintf "access:%d" (int_of_nat i) | WLock -> "lockfile" | WHang -> "hang"
 let kv key tok =
   let p = key ^ "=" in
   let lp = String.length p in
@@ -59,6 +59,7 @@ let line l =
               c_sockdir = chain (kv "sockdir" rd); c_lock = fstat (kv "lock" lk);
               c_piddir = chain (kv "piddir" pd) } in
     (match startup c with
+     | Some (_, WHang) -> print_string "U hung\n"
      | Some (s, w) -> Printf.printf "U refuse %s:%s\n" (site s) (why w)
      | None ->
        let m = created_modes c and sr = seed_of c in
